@@ -233,7 +233,7 @@ class World:
             self.crash_hook("commit", self.commit_no, info)
 
     # -- running a director -----------------------------------------------------------------------
-    def run(self, main_factory, max_ticks=400_000, max_vtime=50_000.0) -> BuildResult:
+    def run(self, main_factory, max_ticks=60_000, max_vtime=50_000.0) -> BuildResult:
         """Run `await main_factory(world)` on a fresh virtual loop inside this world."""
         seams.install()
         res = BuildResult()
